@@ -1044,6 +1044,11 @@ def mon_B(case, pid):
                 if site == "weight-not-positive":
                     if req[0] == "putw" and int(req[3]) <= 0:
                         continue    # documented precondition: positive weights
+                    if req[0] == "upsert" and req[3] == "-" and req[2] != "-":
+                        cfg = case.cfg
+                        computed = cfg.get("wbase", 1) + int(req[2]) % max(cfg.get("wmod", 1), 1) + (cfg.get("ttlentry", 24) if req[4] != "-" else 0)
+                        if computed <= 0:
+                            continue    # documented precondition: the configured weight function returns a positive weight
                     if req[0] == "upsert" and req[5] == "1" and req[3] == "-" and req[2] == "-":
                         charge = cs["charge"].get(cid)
                         if charge is not None and charge > case.cfg.get("ttlentry", 24):
